@@ -15,6 +15,7 @@ RULE = ("(A) the module's add/multiply/privtopub run with its curve constants re
 ASSUMPTIONS = ["affine model in vf/model/ec.py; SEC 2 constants typed into vf/model/params.py",
                "tiny-curve substitution replaces module attributes P,N,A,B,Gx,Gy,G at run time"]
 ENGINE = "exhaustive enumeration on substituted tiny curves + hypothesis on the real curve"
+TECHNIQUE = ("exhaustive enumeration on substituted tiny prime-order curves + property-based testing (Hypothesis) on the real constants against an independent affine model")
 REQUIRED_LABELS = {t: ["B:add:double", "B:add:inverse", "B:add:identity", "B:mul:n<0", "B:mul:n>=N",
                        "A:add:double", "A:add:inverse"] for t in ("quick", "thorough")}
 try:
